@@ -77,6 +77,8 @@ def run(ctx, rep):
                         want = 'Pt' if 'loc' in kw.arg else 'Df'
                         got = dk.value(kw.value, fr)
                         ok = compatible(got, want)
+                        if want == 'Pt' and isinstance(got, tuple) and got and got[0] == 'lit':
+                            ok = False   # a literal location (also 0) does not move with the data: the estimate is not shift-equivariant
                         if ok is None:
                             rep.undecided('D1.dims', fit, call, f'{c.name}: dimension of {kw.arg}= not derivable', construct=f'{c.name} fit {kw.arg}=')
                         else:
@@ -357,6 +359,29 @@ def d4(ctx, rep):
     fit = kde.methods['_fit']
     xp = fit.params[1]
     ds = params_dicts(fit)
+    # the estimator kept as self._model and the dataset recorded in _params describe the same points
+    for st in [a for a in walk_no_nested(fit.node) if isinstance(a, ast.Assign) and any(is_self_attr(t, fit.self_name, '_model') for t in a.targets)]:
+        v = _res(fit, st.value)
+        cons = 'fitted estimator and stored dataset agree'
+        if isinstance(v, ast.Call) and is_self_attr(v.func, fit.self_name, '_get_model'):
+            rep.ok('D4.kde', fit, st, 'self._model = self._get_model(): built from the stored dataset', construct=cons)
+            continue
+        src = _kde_dataset_arg(prog, fit, v) if isinstance(v, ast.Call) else None
+        if src is None or not ds:
+            rep.undecided('D4.kde', fit, st, 'what self._model is built on is not derived', construct=cons)
+            continue
+        # where was that estimator built, and was the data name re-bound between that point and the store of the dataset?
+        built_at = st.value.lineno if not isinstance(st.value, ast.Name) else next((a.lineno for a in walk_no_nested(fit.node) if isinstance(a, ast.Assign)
+                                                                                   and any(isinstance(t, ast.Name) and t.id == st.value.id for t in a.targets)), st.lineno)
+        stored_at = ds[0][0].lineno
+        names = {x.id for x in ast.walk(src) if isinstance(x, ast.Name)}
+        rebound = [a for a in walk_no_nested(fit.node) if isinstance(a, ast.Assign) and min(built_at, stored_at) < a.lineno <= max(built_at, stored_at)
+                   and any(isinstance(t, ast.Name) and t.id in names for t in a.targets)]
+        if rebound:
+            rep.bad('D4.kde', fit, st, f'self._model is estimated on `{short(src, 30)}` as it was at line {built_at}, but the dataset recorded at line {stored_at} is taken after '
+                    f'`{short(rebound[0], 50)}`: density/CDF use one sample, bounds and from_dict(to_dict(m)) another', construct=cons)
+        else:
+            rep.ok('D4.kde', fit, st, 'self._model is estimated on the data that is recorded as the dataset', construct=cons)
 
     def derives(e, seen=()):
         """True: the value is the training data (or a resample of a kernel estimate built from it); False: it is
